@@ -3,6 +3,8 @@ package main
 
 import (
 	"fmt"
+	"io"
+	"log"
 	"os"
 	"sort"
 
@@ -10,6 +12,7 @@ import (
 )
 
 func main() {
+	log.SetOutput(io.Discard) // gogen reports some errors through log.Panicln: the panic value is what the checks classify
 	if len(os.Args) < 2 {
 		usage()
 	}
